@@ -63,6 +63,7 @@ func genC13(t *rapid.T) C13Case {
 				for s.Exch.Route == "deadup" { // keep the number of registries small
 					s.Exch = genFltExch(t)
 				}
+				s.Exch.BodyLog = false // the accounting laboratory watches the books of the plain instances
 			}
 			batch = append(batch, s)
 		}
